@@ -112,7 +112,7 @@ pub fn child_case(input: &[u8]) -> String {
     let state = String::from_utf8_lossy(input).to_string();
     let rt = runtime();
     let r = rt.block_on(async { tokio::time::timeout(Duration::from_secs(25), run_state(&state)).await });
-    rt.shutdown_background();
+    drop(rt);
     match r { Err(_) => "TIMEOUT".into(), Ok(Err(e)) => format!("ERROR {}", format!("{e:?}").replace('\n', " ").chars().take(160).collect::<String>()), Ok(Ok(l)) => l }
 }
 
